@@ -122,6 +122,7 @@ class Path:
         self.trail = []
         self.pc = []
         self.pc_kind = []  # 'a' assumption / 'b' branch, parallel to pc
+        self.decided = {}  # id(cond) -> (cond, decision): a condition decided once stays decided on this path
         self.solver = None  # (constraint-independence slicing: a fresh solver per query)
         self.pending = []
         self.obligations = []
@@ -194,6 +195,9 @@ class Path:
             return True
         if z3.is_false(c):
             return False
+        memo = self.decided.get(c.get_id())
+        if memo is not None and memo[0].eq(c):
+            return memo[1]
         if self.pos < len(self.decisions):
             d = self.decisions[self.pos]
             self.pos += 1
@@ -215,6 +219,7 @@ class Path:
         t = c if d else z3.Not(c)
         self.pc.append(t)
         self.pc_kind.append("b")
+        self.decided[c.get_id()] = (c, d)
         return d
 
     def choose(self, n, label="choice") -> int:
@@ -541,6 +546,13 @@ class Interp:
             if len(a) != len(b):
                 return False
             cs = []
+            if any(is_sym(k) for k in a) or any(is_sym(k) for k in b):
+                # symbolic keys: the keys of one dict are pairwise distinct on this path (setitem
+                # forks on equality before it adds an entry; inputs carry it as an assumption), so
+                # with equal sizes  a == b  <=>  every item of a has an equal item in b
+                for k, v in a.items():
+                    cs.append(Or(*[And(self.py_eq(k, kb), self.py_eq(v, vb)) for kb, vb in b.items()]))
+                return And(*cs)
             for k, v in a.items():
                 if k not in b:
                     return False
@@ -700,7 +712,9 @@ class Interp:
                 if r is not NotImplemented:
                     return r
             if fn.is_async:
-                return Coroutine(fn, lambda: self.run_function(fn, args, kwargs))
+                co = Coroutine(fn, lambda: self.run_function(fn, args, kwargs))
+                co.args, co.kwargs = list(args), dict(kwargs)
+                return co
             if self.merge_pure and not self.in_merge and _any_sym(args, kwargs) and purity.func_pure(self, fn):
                 r = self.merged_call(fn, args, kwargs)
                 if r is not NotImplemented:
@@ -1020,7 +1034,10 @@ class Interp:
                     if self.path.branch(self.py_eq(k, idx)):
                         obj[k] = v
                         return
-                raise Unsupported("dict store with a symbolic key not equal to any present key")
+                # the key differs from every present key on this path (each equality was forked
+                # on above and is now refuted in the path condition): a new entry, in insertion order
+                obj[idx] = v
+                return
             obj[self._hashable(idx)] = v
             return
         if isinstance(obj, BytesVal) and obj.mutable:
@@ -1060,6 +1077,9 @@ class Interp:
             if r is not NotImplemented:
                 return
         it = self.eval(node.iter, env)
+        pf = getattr(it, "py_for", None)
+        if pf is not None:
+            return pf(self, node, env)
         if isinstance(it, GuardedList):
             for g, v in it.pairs:
                 if self.path.branch(g):
@@ -1580,6 +1600,9 @@ class Interp:
                 if b == 0:
                     raise self.exc("ZeroDivisionError")
                 return a // b
+            if isinstance(a, SReal) and isinstance(b, int) and not isinstance(b, bool) and b > 0:
+                # float // positive int constant (floats are exact reals here): floor, as a float
+                return sym.mkreal(z3.ToReal(z3.ToInt(sym.real_t(a) / sym.real_t(b))))
             return _num(a) // b
         if isinstance(op, ast.Mod):
             if isinstance(a, str):
@@ -1588,6 +1611,9 @@ class Interp:
                 if b == 0:
                     raise self.exc("ZeroDivisionError")
                 return a % b
+            if isinstance(a, SReal) and isinstance(b, int) and not isinstance(b, bool) and b > 0:
+                # float % positive int constant: a - b * floor(a / b)
+                return sym.mkreal(sym.real_t(a) - sym.real_t(b) * z3.ToReal(z3.ToInt(sym.real_t(a) / sym.real_t(b))))
             return _num(a) % b
         if isinstance(op, ast.LShift):
             if not is_sym(a) and not is_sym(b):
@@ -1724,6 +1750,11 @@ class Interp:
         return pybuiltins.getitem(self, obj, idx)
 
     def e_ListComp(self, node, env):
+        if len(node.generators) == 1:
+            src = self.eval(node.generators[0].iter, env)
+            lc = getattr(src, "py_listcomp", None)
+            if lc is not None:
+                return lc(self, node, node.generators[0], env)
         if len(node.generators) == 1 and node.generators[0].ifs:
             g = node.generators[0]
             it = self.eval(g.iter, env)
@@ -1753,6 +1784,12 @@ class Interp:
         return self.e_ListComp(node, env)
 
     def e_SetComp(self, node, env):
+        if len(node.generators) == 1 and node.generators[0].ifs and not node.generators[0].is_async:
+            # symbolic filter over a concrete universe: a guarded set instead of 2^n paths
+            from .gsets import guarded_setcomp
+            r = guarded_setcomp(self, node, env)
+            if r is not NotImplemented:
+                return r
         out = []
         self._comp(node.generators, 0, env, lambda e: out.append(self.eval(node.elt, e)))
         return SetVal(out)
